@@ -947,6 +947,15 @@ pub(crate) fn remainder(x: Number, y: Number, arena: &mut Arena) -> Result<Numbe
     }
 }
 
+// gcd(0, 0) is 0; dashu's gcd panics when both operands are zero.
+fn integer_gcd(n1: &Integer, n2: &Integer) -> Integer {
+    if n1.is_zero() && n2.is_zero() {
+        Integer::ZERO
+    } else {
+        n1.gcd(n2).into()
+    }
+}
+
 pub(crate) fn gcd(n1: Number, n2: Number, arena: &mut Arena) -> Result<Number, MachineStubGen> {
     let stub_gen = || {
         let gcd_atom = atom!("gcd");
@@ -961,18 +970,16 @@ pub(crate) fn gcd(n1: Number, n2: Number, arena: &mut Arena) -> Result<Number, M
             if let Some(result) = isize_gcd(n1_i, n2_i) {
                 Ok(Number::arena_from(result, arena))
             } else {
-                let value: Integer = Integer::from(n1_i).gcd(&Integer::from(n2_i)).into();
+                let value = integer_gcd(&Integer::from(n1_i), &Integer::from(n2_i));
                 Ok(Number::arena_from(value, arena))
             }
         }
         (Number::Fixnum(n1), Number::Integer(n2)) | (Number::Integer(n2), Number::Fixnum(n1)) => {
             let n1 = Integer::from(n1.get_num());
-            let n2_clone: Integer = (*n2).clone();
-            Ok(Number::arena_from(Integer::from(n2_clone.gcd(&n1)), arena))
+            Ok(Number::arena_from(integer_gcd(&n2, &n1), arena))
         }
         (Number::Integer(n1), Number::Integer(n2)) => {
-            let value: Integer = (&*n1).gcd(&*n2).into();
-            Ok(Number::arena_from(value, arena))
+            Ok(Number::arena_from(integer_gcd(&n1, &n2), arena))
         }
         (Number::Float(f), _) | (_, Number::Float(f)) => {
             let n = Number::Float(f);
